@@ -132,6 +132,7 @@ const K_DP_QCFG: u32 = 37;
 const K_DP_QNEWOWNER: u32 = 38;
 const K_RG_QCFG: u32 = 39;
 const K_RG_QNEWOWNER: u32 = 40;
+const K_HUB_QHIST: u32 = 41;
 
 fn key(kind: u32, tok: usize, a: usize, b: usize) -> u32 {
     (kind << 24) | ((tok as u32) << 16) | ((a as u32) << 8) | b as u32
@@ -211,6 +212,9 @@ pub fn page_limit(k: usize) -> u32 {
 /// no listing of 21 names needs more than 10 pages; a contract whose cursor does not advance is
 /// cut off here (`<key> overflow`)
 const PAGE_CAP: usize = 24;
+
+/// `hub.qhist`: number of small pages of the hub's AllHistory that are fetched
+const HIST_PAGES: usize = 4;
 
 enum PageEnd {
     Done,
@@ -449,6 +453,70 @@ fn dump_hub(w: &World, out: &mut Vec<String>) {
                 break;
             }
             start_from = Some(page.history[n - 1].batch_id);
+        }
+    });
+    frag(w, key(K_HUB_QHIST, 0, 0, 0), out, |out| {
+        // AllHistory with the parameters `hub.hist` (limit 100, cursor only beyond 100 batches) does
+        // not exercise: small pages through the `start_from` cursor (the first HIST_PAGES pages),
+        // the default limit and the maximal limit; the paged lines print the deprecated alias
+        // fields amount / applied_exchange_rate / withdraw_rate of the response
+        let mut start_from: Option<u64> = None;
+        for k in 0..HIST_PAGES {
+            let lim = page_limit(k);
+            let page: AllHistoryResponse = match query_contract(
+                w,
+                HUB,
+                &QueryMsg::AllHistory { start_from, limit: Some(lim) },
+            ) {
+                Ok(p) => p,
+                Err(_) => {
+                    out.push(format!("hub.qhist err {}", k));
+                    break;
+                }
+            };
+            for h in &page.history {
+                out.push(format!(
+                    "hub.qhist {} {} {} {} {}",
+                    k,
+                    h.batch_id,
+                    h.amount,
+                    d(h.applied_exchange_rate),
+                    d(h.withdraw_rate)
+                ));
+            }
+            if (page.history.len() as u32) < lim {
+                break;
+            }
+            start_from = page.history.last().map(|h| h.batch_id);
+        }
+        match query_contract::<_, AllHistoryResponse>(
+            w,
+            HUB,
+            &QueryMsg::AllHistory { start_from: None, limit: None },
+        ) {
+            Ok(p) => {
+                let mut s = "hub.qhist.def".to_string();
+                for h in &p.history {
+                    let _ = write!(s, " {}", h.batch_id);
+                }
+                out.push(s);
+            }
+            Err(_) => out.push("hub.qhist.def err".to_string()),
+        }
+        match query_contract::<_, AllHistoryResponse>(
+            w,
+            HUB,
+            &QueryMsg::AllHistory { start_from: None, limit: Some(1000) },
+        ) {
+            Ok(p) => out.push(format!(
+                "hub.qhist.max {} {}",
+                p.history.len(),
+                match p.history.last() {
+                    Some(h) => h.batch_id.to_string(),
+                    None => "-".to_string(),
+                }
+            )),
+            Err(_) => out.push("hub.qhist.max err".to_string()),
         }
     });
     for (ai, a) in ADDRS.iter().enumerate() {
